@@ -113,4 +113,3 @@ func TestScenarioReplayChild(t *testing.T) {
 	n := sc.Replay()
 	fmt.Printf("TRACEHASH %s\n", n.TraceHash())
 }
-
